@@ -243,6 +243,10 @@ func TestVerifConfConfig(t *testing.T) {
 		"wrong-type":           `{"configVersion":"v1","onStartup":"soon"}`,
 		"bad-event-type":       `{"configVersion":"v1","kubernetes":[{"apiVersion":"v1","kind":"Pod","executeHookOnEvent":["Exploded"]}]}`,
 		"name-and-field-selector": `{"configVersion":"v1","kubernetes":[{"apiVersion":"v1","kind":"Pod","nameSelector":{"matchNames":["a"]},"fieldSelector":{"matchExpressions":[{"field":"metadata.name","operator":"Equals","value":"a"}]}}]}`,
+		"admission-namespace-unknown-field": `{"configVersion":"v1","kubernetesValidating":[{"name":"a.example.com","namespace":{"labelSelector":{"matchLabels":{"a":"b"}},"surprise":true},"rules":[{"apiGroups":[""],"apiVersions":["v1"],"operations":["*"],"resources":["pods"],"scope":"Namespaced"}]}]}`,
+		"mutating-namespace-unknown-field": `{"configVersion":"v1","kubernetesMutating":[{"name":"a.example.com","namespace":{"labelSelector":{"matchLabels":{"a":"b"}},"nameSelector":{"matchNames":["x"]}},"rules":[{"apiGroups":[""],"apiVersions":["v1"],"operations":["*"],"resources":["pods"],"scope":"Namespaced"}]}]}`,
+		"kubernetes-namespace-unknown-field": `{"configVersion":"v1","kubernetes":[{"apiVersion":"v1","kind":"Pod","namespace":{"nameSelector":{"matchNames":["x"]},"surprise":1}}]}`,
+		"schedule-unknown-field": `{"configVersion":"v1","schedule":[{"crontab":"* * * * *","surprise":1}]}`,
 		"bad-settings":         `{"configVersion":"v1","onStartup":1,"settings":{"executionMinInterval":"soon","executionBurst":"1"}}`,
 	}
 	var keys []string
@@ -268,5 +272,5 @@ func TestVerifConfConfig(t *testing.T) {
 			report("config-panic", fnLoad, fmt.Sprintf("input %q: panic %v", g, p))
 		}
 	}
-	fmt.Printf("CONF-STATS evaluated=%d scope=real LoadAndValidate on generated documents as JSON and as YAML: every set of 1-2 (and three larger) kubernetes bindings out of 14 variants (name, queue, allowFailure, executeHookOnEvent absent/[Added]/[] alone and combined with the legacy watchEvent, executeHookOnSynchronization, keepFullObjectsInMemory, groups, includeSnapshotsFrom) plus two schedules and onStartup: validity, JSON = YAML, declared order, documented defaults, group snapshots; 13 documents that must be rejected; 15 malformed inputs that must not panic\n", evaluated)
+	fmt.Printf("CONF-STATS evaluated=%d scope=real LoadAndValidate on generated documents as JSON and as YAML: every set of 1-2 (and three larger) kubernetes bindings out of 14 variants (name, queue, allowFailure, executeHookOnEvent absent/[Added]/[] alone and combined with the legacy watchEvent, executeHookOnSynchronization, keepFullObjectsInMemory, groups, includeSnapshotsFrom) plus two schedules and onStartup: validity, JSON = YAML, declared order, documented defaults, group snapshots; 17 documents that must be rejected; 15 malformed inputs that must not panic\n", evaluated)
 }
